@@ -19,9 +19,16 @@ def log(*a):
     print(*a, file=sys.stderr, flush=True)
 
 
-def sh(cmd, cwd=None, env=None, timeout=None, check=False):
+def _limit_memory():
+    import resource
+    lim = 12 * 1024 ** 3      # code under test can allocate without bound on hostile inputs
+    resource.setrlimit(resource.RLIMIT_AS, (lim, lim))
+
+
+def sh(cmd, cwd=None, env=None, timeout=None, check=False, limit_mem=False):
     p = subprocess.run(cmd, cwd=cwd, env=env, timeout=timeout, stdout=subprocess.PIPE,
-                       stderr=subprocess.STDOUT, text=True, errors='replace')
+                       stderr=subprocess.STDOUT, text=True, errors='replace',
+                       preexec_fn=_limit_memory if limit_mem else None)
     if check and p.returncode != 0:
         raise RuntimeError('command failed: %s\n%s' % (' '.join(cmd), p.stdout[-4000:]))
     return p.returncode, p.stdout
@@ -197,7 +204,8 @@ def run_harness(cfg, action, out, **kw):
     cmd = [os.path.join(RUN, 'lcv'), cfg['go'], action, '-out', out]
     for k, v in kw.items():
         cmd += ['-' + k, str(v)]
-    rc, o = sh(cmd, timeout=cfg.get('gen_timeout', 1800), env=dict(GOENV, LCV_RUN=RUN, LCV_REPO=REPO))
+    rc, o = sh(cmd, timeout=cfg.get('gen_timeout', 1800), env=dict(GOENV, LCV_RUN=RUN, LCV_REPO=REPO),
+               limit_mem=True)
     if rc != 0:
         raise Broken('harness %s failed rc=%d:\n%s' % (' '.join(cmd), rc, o[-4000:]))
     cases = []
